@@ -211,4 +211,406 @@ theorem shape_never_same_cycle (cs : List (Nat × Option Delta)) (hwf : WF cs) {
     (h : (τ, d) ∈ run {} cs) : ∃ t, τ = t + 1 ∧ (t, some d) ∈ cs := by
   rw [shape_feedback_delay cs hwf] at h; exact mem_shifted h
 
+/-! ## what a reader observes -/
+
+theorem observed_cons (k : Kind) (v : Val) (t : Nat) (d : Delta) (rest : List (Nat × Delta)) :
+    observed k v ((t, d) :: rest) =
+      (match (applyDelta k v d).2 with
+       | some o => [(t, o)]
+       | none => []) ++ observed k (applyDelta k v d).1 rest := by
+  simp only [observed, reader, List.filterMap_cons]
+  cases (applyDelta k v d).2 <;> simp
+
+theorem applyCore_rems_sub (k : Kind) (v : Val) (d : Delta) : ∀ p ∈ (applyCore k v d).2.rems, p ∈ d.rems := by
+  intro p hp
+  cases k <;> simp [applyCore] at hp
+  · exact hp.1
+  · exact hp.1
+
+theorem applyCore_mods_sub (k : Kind) (v : Val) (d : Delta) :
+    ∀ p ∈ (applyCore k v d).2.mods.map Prod.fst, p ∈ d.mods.map Prod.fst := by
+  intro p hp
+  cases k
+  · simpa [applyCore] using hp
+  · simp only [applyCore, List.map_map, List.mem_map, List.mem_filter, Function.comp] at hp
+    obtain ⟨e, ⟨he, _⟩, rfl⟩ := hp
+    exact List.mem_map.mpr ⟨e, he, rfl⟩
+  · simpa [applyCore] using hp
+
+theorem applyCore_mods_eq {k : Kind} (hk : k ≠ .set) (v : Val) (d : Delta) : (applyCore k v d).2.mods = d.mods := by
+  cases k
+  · rfl
+  · exact absurd rfl hk
+  · rfl
+
+/-- whatever the reader sees in a delivery is part of the delivered delta: ticking positions are positions of
+    the delta, removed positions are removals of the delta; for TS/TSB/TSL/TSD the ticks carry exactly the
+    delta's positions and values -/
+theorem observed_sub_written (k : Kind) (ds : List (Nat × Delta)) :
+    ∀ (v : Val) {τ : Nat} {o : Delta}, (τ, o) ∈ observed k v ds →
+      ∃ d, (τ, d) ∈ ds ∧ (∀ p ∈ o.mods.map Prod.fst, p ∈ d.mods.map Prod.fst) ∧ (∀ p ∈ o.rems, p ∈ d.rems) ∧
+        (k ≠ .set → o.mods = d.mods) := by
+  induction ds with
+  | nil => intro v τ o h; simp [observed, reader] at h
+  | cons c rest ih =>
+    obtain ⟨t, d⟩ := c
+    intro v τ o h
+    rw [observed_cons] at h
+    rcases List.mem_append.mp h with h | h
+    · have hd : (applyDelta k v d).2 = some o ∧ τ = t := by
+        cases hh : (applyDelta k v d).2 with
+        | none => simp [hh] at h
+        | some o' =>
+          simp only [hh, List.mem_singleton] at h
+          injection h with h1 h2; exact ⟨by rw [h2], h1⟩
+      obtain ⟨hd, rfl⟩ := hd
+      have ho : o = (applyCore k v d).2 := by
+        simp only [applyDelta] at hd
+        split at hd
+        · injection hd with hd; exact hd.symm
+        · cases hd
+      subst ho
+      exact ⟨d, by simp, applyCore_mods_sub k v d, applyCore_rems_sub k v d, fun hk => applyCore_mods_eq hk v d⟩
+    · obtain ⟨d', h1, h2⟩ := ih _ h
+      exact ⟨d', List.mem_cons_of_mem _ h1, h2⟩
+
+/-- if every delivered delta is a real change of the value accumulated so far, the reader's tick stream is
+    exactly the delivered stream -/
+theorem observed_eq_written (k : Kind) (ds : List (Nat × Delta)) :
+    ∀ v : Val, Coherent k v ds → observed k v ds = ds := by
+  induction ds with
+  | nil => intro v _; simp [observed, reader]
+  | cons c rest ih =>
+    obtain ⟨t, d⟩ := c
+    intro v h
+    obtain ⟨h1, h2⟩ := h
+    rw [observed_cons, h1]
+    simp only [List.singleton_append]
+    rw [ih _ h2]
+
+/-- TS / TSB / TSL deltas (at least one position, no removals) are always coherent -/
+theorem coherent_fix (ds : List (Nat × Delta)) :
+    ∀ v : Val, (∀ e ∈ ds, RecDelta e.2) → Coherent .fix v ds := by
+  induction ds with
+  | nil => intro v _; trivial
+  | cons c rest ih =>
+    obtain ⟨t, d⟩ := c
+    intro v h
+    have hd : RecDelta d := h (t, d) (by simp)
+    refine ⟨?_, ih _ (fun e he => h e (List.mem_cons_of_mem _ he))⟩
+    obtain ⟨hm, hr⟩ := hd
+    have hne : d.mods.isEmpty = false := by
+      cases hmm : d.mods with
+      | nil => exact absurd hmm hm
+      | cons a b => rfl
+    have hdd : ({ mods := d.mods, rems := [] } : Delta) = d := by
+      cases d; simp_all
+    simp [applyDelta, applyVal, hasEffect, hne, applyCore, hdd]
+
+/-- **no field re-ticks that nobody wrote, none is lost** (TS / TSB / TSL, any starting value of the port):
+    position `p` ticks with `x` at the reader in the cycle at `t + 1` iff the producer's delta of the cycle at
+    `t` carried `p = x` (and the run has a cycle at `t + 1`) -/
+theorem no_spurious_field_tick (cs : List (Nat × Option Delta)) (hwf : WF cs)
+    (hrec : ∀ t d, (t, some d) ∈ cs → RecDelta d) (v : Val) (t : Nat) (p : Pos) (x : Int) :
+    TickAt (observed .fix v (run {} cs)) (t + 1) p x ↔ WrittenAt cs t p x := by
+  rw [shape_feedback_delay cs hwf]
+  have hco : Coherent .fix v (shifted cs) := coherent_fix _ v (by
+    intro e he
+    obtain ⟨τ, d⟩ := e
+    obtain ⟨t0, _, h2⟩ := mem_shifted he
+    exact hrec t0 d h2)
+  rw [observed_eq_written _ _ v hco]
+  constructor
+  · rintro ⟨d, h1, h2⟩
+    obtain ⟨h3, w', h4⟩ := (mem_shifted_iff hwf).mp h1
+    exact ⟨d, w', h3, h4, h2⟩
+  · rintro ⟨d, w', h1, h2, h3⟩
+    exact ⟨d, (mem_shifted_iff hwf).mpr ⟨h1, w', h2⟩, h3⟩
+
+/-- all kinds, any starting value of the port (e.g. the content of an initial delta): a position that ticks at
+    the reader at `τ` was written by the producer one smallest step earlier, and a position reported removed at
+    `τ` was removed by the producer one smallest step earlier -/
+theorem no_spurious_tick_any_kind (k : Kind) (cs : List (Nat × Option Delta)) (hwf : WF cs) (v : Val) (τ : Nat) (p : Pos) :
+    ((∃ x, TickAt (observed k v (run {} cs)) τ p x) → ∃ t x', τ = t + 1 ∧ WrittenAt cs t p x') ∧
+    (RemovedAt (observed k v (run {} cs)) τ p →
+      ∃ t d w', τ = t + 1 ∧ (t, some d) ∈ cs ∧ (t + 1, w') ∈ cs ∧ p ∈ d.rems) := by
+  rw [shape_feedback_delay cs hwf]
+  constructor
+  · rintro ⟨x, o, h1, h2⟩
+    obtain ⟨d, hd, hm, _, _⟩ := observed_sub_written k _ v h1
+    obtain ⟨t, rfl, _⟩ := mem_shifted hd
+    obtain ⟨h3, w', h4⟩ := (mem_shifted_iff hwf).mp hd
+    have hp : p ∈ d.mods.map Prod.fst := hm p (List.mem_map.mpr ⟨(p, x), h2, rfl⟩)
+    obtain ⟨e, he, hpe⟩ := List.mem_map.mp hp
+    obtain ⟨q, x'⟩ := e
+    simp only at hpe
+    subst hpe
+    exact ⟨t, x', rfl, d, w', h3, h4, he⟩
+  · rintro ⟨o, h1, h2⟩
+    obtain ⟨d, hd, _, hr, _⟩ := observed_sub_written k _ v h1
+    obtain ⟨t, rfl, _⟩ := mem_shifted hd
+    obtain ⟨h3, w', h4⟩ := (mem_shifted_iff hwf).mp hd
+    exact ⟨t, d, w', rfl, h3, h4, hr p h2⟩
+
+/-! ## the reader's value -/
+
+theorem finalVal_append (k : Kind) (v : Val) (a b : List (Nat × Delta)) :
+    finalVal k v (a ++ b) = finalVal k (finalVal k v a) b := by
+  simp [finalVal, List.foldl_append]
+
+theorem reader_value (k : Kind) (ds₁ : List (Nat × Delta)) :
+    ∀ (v : Val) (t : Nat) (d : Delta) (ds₂ : List (Nat × Delta)),
+      (reader k v (ds₁ ++ (t, d) :: ds₂))[ds₁.length]? =
+        some (t, (applyDelta k (finalVal k v ds₁) d).2, finalVal k v (ds₁ ++ [(t, d)])) := by
+  induction ds₁ with
+  | nil => intro v t d ds₂; simp [reader, finalVal, applyVal]
+  | cons c rest ih =>
+    obtain ⟨t0, d0⟩ := c
+    intro v t d ds₂
+    simp only [List.cons_append, reader, List.length_cons, List.getElem?_cons_succ]
+    rw [ih]
+    simp [finalVal, applyVal]
+
+/-- **the reader's value is the fold of the written deltas**: after the delivery of the delta written at `t`
+    (the `ds₁.length`-th delivery of the run) the value of the port is the starting value with all deltas
+    written up to `t` applied in order -/
+theorem value_is_fold_of_deltas (k : Kind) (cs : List (Nat × Option Delta)) (hwf : WF cs) (v : Val)
+    (ds₁ ds₂ : List (Nat × Delta)) (t : Nat) (d : Delta) (hs : shifted cs = ds₁ ++ (t + 1, d) :: ds₂) :
+    (t, some d) ∈ cs ∧
+    (reader k v (run {} cs))[ds₁.length]? =
+      some (t + 1, (applyDelta k (finalVal k v ds₁) d).2, finalVal k v (ds₁ ++ [(t + 1, d)])) ∧
+    finalVal k v (run {} cs) = finalVal k v (shifted cs) := by
+  rw [shape_feedback_delay cs hwf]
+  refine ⟨?_, ?_, rfl⟩
+  · have : (t + 1, d) ∈ shifted cs := by rw [hs]; simp
+    exact ((mem_shifted_iff hwf).mp this).1
+  · rw [hs]; exact reader_value k ds₁ v (t + 1) d ds₂
+
+/-- the last value written to position `p` by the entries of one delta, if any -/
+def lastWrite (p : Pos) : List (Pos × Int) → Option Int
+  | [] => none
+  | e :: r =>
+    match lastWrite p r with
+    | some x => some x
+    | none => if p = e.1 then some e.2 else none
+
+theorem getKey_setKey (p q : Pos) (x : Int) (m : List (Pos × Int)) :
+    getKey p (setKey q x m) = if p = q then some x else getKey p m := by
+  induction m with
+  | nil => simp [setKey, getKey]
+  | cons e r ih =>
+    obtain ⟨a, b⟩ := e
+    simp only [setKey]
+    by_cases h1 : q < a
+    · simp [h1, getKey]
+    · by_cases h2 : q = a
+      · subst h2
+        by_cases h3 : p = q <;> simp [getKey, h3]
+      · simp only [h1, h2, if_false, getKey, ih]
+        by_cases h3 : p = a <;> by_cases h4 : p = q
+        · exact absurd (h4.symm.trans h3) h2
+        · subst h3; simp [h4]
+        · subst h4; simp [h3]
+        · simp [h3, h4]
+
+theorem getKey_foldl_setKey (p : Pos) (mods : List (Pos × Int)) :
+    ∀ m : List (Pos × Int), getKey p (mods.foldl (fun m e => setKey e.1 e.2 m) m) =
+      match lastWrite p mods with
+      | some x => some x
+      | none => getKey p m := by
+  induction mods with
+  | nil => intro m; simp [lastWrite]
+  | cons e r ih =>
+    intro m
+    simp only [List.foldl_cons, ih, lastWrite]
+    cases lastWrite p r with
+    | some x => rfl
+    | none =>
+      simp only [getKey_setKey]
+      by_cases h : p = e.1 <;> simp [h]
+
+/-- TS / TSB / TSL: after applying a delta, position `p` holds the value the delta wrote to it, else what it
+    held before (positions nobody wrote keep their value and – `no_spurious_field_tick` – do not tick) -/
+theorem fix_value_lookup (v : Val) (d : Delta) (p : Pos) :
+    getKey p (applyVal .fix v d).items =
+      match lastWrite p d.mods with
+      | some x => some x
+      | none => getKey p v.items := by
+  simp only [applyVal, applyDelta, hasEffect]
+  by_cases hm : d.mods = []
+  · simp [hm, lastWrite]
+  · have he : d.mods.isEmpty = false := by simpa [List.isEmpty_iff] using hm
+    simp only [he, Bool.not_false, if_true, applyCore]
+    exact getKey_foldl_setKey p d.mods v.items
+
+/-! ## quiescence -/
+
+/-- no writes and nothing due ⇒ no deliveries, and the pair's state does not change -/
+theorem shape_quiescent (cs : List (Nat × Option Delta)) :
+    ∀ s : FB, (∀ c ∈ cs, c.2 = none ∧ s.sched ≠ c.1) → run s cs = [] ∧ finalFB s cs = s := by
+  induction cs with
+  | nil => intro s _; exact ⟨rfl, rfl⟩
+  | cons c rest ih =>
+    obtain ⟨t, w⟩ := c
+    intro s h
+    obtain ⟨hw, hs⟩ := h (t, w) (by simp)
+    simp only at hw hs
+    subst hw
+    have hc : cycle t none s = (s, none) := by simp [cycle, sourceStep, sinkStep, hs]
+    have ih' := ih s (fun c hc => h c (List.mem_cons_of_mem _ hc))
+    simp only [run, finalFB, hc]
+    exact ih'
+
+def headTime : List (Nat × Option Delta) → Nat
+  | [] => 0
+  | (t, _) :: _ => t
+
+theorem sched_after (pre : List (Nat × Option Delta)) (t : Nat) (w : Option Delta) :
+    ∀ s : FB, WF (pre ++ [(t, w)]) → (s.sched = 0 ∨ s.sched = headTime (pre ++ [(t, w)])) →
+      (finalFB s (pre ++ [(t, w)])).sched = if w.isSome then t + 1 else 0 := by
+  induction pre with
+  | nil =>
+    intro s _ hs
+    simp only [List.nil_append, finalFB, headTime] at hs ⊢
+    cases w with
+    | some d => rw [cycle_sched_some s t d (by omega)]; simp
+    | none =>
+      simp only [cycle, sourceStep, sinkStep]
+      by_cases h : s.sched = t
+      · simp [h]
+      · simp [h]; omega
+  | cons c rest ih =>
+    obtain ⟨t0, w0⟩ := c
+    intro s hwf hs
+    simp only [List.cons_append, finalFB, headTime] at hs ⊢
+    have hwf' : WF (rest ++ [(t, w)]) := wf_tail hwf
+    apply ih _ hwf'
+    cases hr : rest ++ [(t, w)] with
+    | nil => simp at hr
+    | cons c1 r1 =>
+      obtain ⟨t1, w1⟩ := c1
+      rw [List.cons_append, hr] at hwf
+      obtain ⟨_, hlt, hnext, _⟩ := hwf
+      simp only [headTime]
+      cases w0 with
+      | some d =>
+        rw [cycle_sched_some s t0 d (by omega)]
+        right; simp; exact (hnext rfl).symm
+      | none =>
+        left
+        simp only [cycle, sourceStep, sinkStep]
+        by_cases h : s.sched = t0
+        · simp [h]
+        · simp [h]; omega
+
+/-- **nothing re-ticks**: after the cycle at `t` the source is scheduled for exactly `t + 1` if the producer
+    ticked at `t`, and is idle (`MIN_DT`) otherwise -/
+theorem source_due_iff_written (pre : List (Nat × Option Delta)) (t : Nat) (w : Option Delta)
+    (hwf : WF (pre ++ [(t, w)])) :
+    (finalFB {} (pre ++ [(t, w)])).sched = if w.isSome then t + 1 else 0 :=
+  sched_after pre t w {} hwf (Or.inl rfl)
+
+/-! ## the un-cleared state -/
+
+/-- a source that clears the captured delta when it emits it (the tidy single-slot specification) -/
+def sourceStepClr (t : Nat) (s : FB) : FB × Option Delta :=
+  if s.sched = t then ({ state := none, sched := 0 }, s.state) else (s, none)
+
+def runClr : FB → List (Nat × Option Delta) → List (Nat × Delta)
+  | _, [] => []
+  | s, (t, w) :: rest =>
+    let r := sourceStepClr t s
+    match r.2 with
+    | some d => (t, d) :: runClr (sinkStep t w r.1) rest
+    | none => runClr (sinkStep t w r.1) rest
+
+/-- `evaluate_feedback_source` leaves the captured delta in the node state; because only the schedule slot
+    decides whether it is emitted, this is unobservable: a clearing source delivers the same stream
+    (cycle times are positive: `MIN_ST` and later) -/
+theorem state_not_cleared_harmless (cs : List (Nat × Option Delta)) :
+    ∀ s s' : FB, (∀ c ∈ cs, 0 < c.1) → s.sched = s'.sched →
+      (s'.state = s.state ∨ (s'.state = none ∧ s.sched = 0)) → run s cs = runClr s' cs := by
+  induction cs with
+  | nil => intro s s' _ _ _; rfl
+  | cons c rest ih =>
+    obtain ⟨t, w⟩ := c
+    intro s s' hpos hsch hst
+    have ht : 0 < t := hpos (t, w) (by simp)
+    have hpos' : ∀ c ∈ rest, 0 < c.1 := fun c hc => hpos c (List.mem_cons_of_mem _ hc)
+    simp only [run, runClr, cycle, sourceStep, sourceStepClr]
+    by_cases hd : s.sched = t
+    · have hd' : s'.sched = t := by omega
+      have hse : s'.state = s.state := by
+        rcases hst with h | ⟨_, h⟩
+        · exact h
+        · omega
+      simp only [hd, hd', if_true, hse]
+      have key : ∀ st : Option Delta, run (sinkStep t w { state := st, sched := 0 }) rest =
+          runClr (sinkStep t w { state := none, sched := 0 }) rest := by
+        intro st
+        apply ih _ _ hpos'
+        · cases w <;> simp [sinkStep]
+        · cases w with
+          | none => right; simp [sinkStep]
+          | some d => left; simp [sinkStep]
+      cases hss : s.state with
+      | none =>
+        show run (sinkStep t w { state := none, sched := 0 }) rest = runClr (sinkStep t w { state := none, sched := 0 }) rest
+        exact key none
+      | some d =>
+        show (t, d) :: run (sinkStep t w { state := some d, sched := 0 }) rest =
+          (t, d) :: runClr (sinkStep t w { state := none, sched := 0 }) rest
+        rw [key (some d)]
+    · have hd' : ¬ s'.sched = t := by omega
+      simp only [hd, hd', if_false]
+      apply ih _ _ hpos'
+      · cases w <;> simp [sinkStep, hsch]
+      · cases w with
+        | none => simpa [sinkStep] using hst
+        | some d => left; simp [sinkStep]
+
+/-! ## non-vacuity -/
+
+/-- `TSB{a,b}`: both fields, then only `b`, then only `a`, a gap, `a` again, an idle step -/
+def exTsb : List (Nat × Option Delta) :=
+  [(1, some { mods := [(0, 1), (1, 10)] }), (2, some { mods := [(1, 11)] }), (3, some { mods := [(0, 2)] }),
+   (4, none), (6, some { mods := [(0, 3)] }), (7, none)]
+
+example : WF exTsb := by simp [exTsb, WF]
+example : ∀ t d, (t, some d) ∈ exTsb → RecDelta d := by
+  intro t d h
+  simp [exTsb] at h
+  rcases h with ⟨_, h⟩ | ⟨_, h⟩ | ⟨_, h⟩ | ⟨_, h⟩ <;> subst h <;> simp [RecDelta]
+example : run {} exTsb =
+    [(2, { mods := [(0, 1), (1, 10)] }), (3, { mods := [(1, 11)] }), (4, { mods := [(0, 2)] }), (7, { mods := [(0, 3)] })] := by
+  decide
+/-- in the cycle at 3 only `b` ticks at the reader (value 11); `a` keeps 1 and does not tick -/
+example : observed .fix {} (run {} exTsb) =
+    [(2, { mods := [(0, 1), (1, 10)] }), (3, { mods := [(1, 11)] }), (4, { mods := [(0, 2)] }), (7, { mods := [(0, 3)] })] := by
+  decide
+example : (finalVal .fix {} (run {} exTsb)).items = [(0, 3), (1, 11)] := by decide
+example : WrittenAt exTsb 2 1 11 := ⟨{ mods := [(1, 11)] }, some { mods := [(0, 2)] }, by simp [exTsb], by simp [exTsb], by simp⟩
+
+/-- `TSS` with initial delta `{+1,+2}`: the producer (whose own set starts empty) adds 1, later removes 1, adds 3 -/
+def exTss : List (Nat × Option Delta) :=
+  [(1, some { mods := [(1, 0)] }), (2, none), (3, some { mods := [(3, 0)], rems := [1] }), (4, none)]
+
+example : WF exTss := by simp [exTss, WF]
+example : run (initFB 1 { mods := [(1, 0), (2, 0)] }) exTss =
+    [(1, { mods := [(1, 0), (2, 0)] }), (2, { mods := [(1, 0)] }), (4, { mods := [(3, 0)], rems := [1] })] := by
+  decide
+/-- the add of the already present 1 re-ticks the reader with an EMPTY delta (the code's `touch()`): observed ⊂ written -/
+example : observed .set {} (run (initFB 1 { mods := [(1, 0), (2, 0)] }) exTss) =
+    [(1, { mods := [(1, 0), (2, 0)] }), (2, {}), (4, { mods := [(3, 0)], rems := [1] })] := by
+  decide
+/-- without the initial delta the same history is coherent and observed = written -/
+example : Coherent .set {} (run {} exTss) := by
+  have h : run {} exTss = [(2, { mods := [(1, 0)] }), (4, { mods := [(3, 0)], rems := [1] })] := by decide
+  rw [h]
+  exact ⟨by decide, by decide, trivial⟩
+/-- quiescence hypotheses are satisfiable: idle pair, cycles without writes -/
+example : ∀ c ∈ [((5 : Nat), (none : Option Delta)), (9, none)], c.2 = none ∧ ({} : FB).sched ≠ c.1 := by decide
+/-- the simulation hypotheses of `state_not_cleared_harmless` hold for the idle pair and for a declared initial delta -/
+example : (∀ c ∈ exTsb, 0 < c.1) ∧ ({} : FB).sched = ({} : FB).sched := by decide
+
 end HgVerif.FeedbackShape
